@@ -161,6 +161,7 @@ type fzGen struct {
 }
 
 type fzOpRec struct {
+	beyond         bool // ttail beyond the head: every table is reset (resetTo)
 	kind           string
 	arg            uint64
 	group          string
@@ -331,6 +332,7 @@ func runFzOnce(t *testing.T, p *FzPlan) *simcore.Result {
 				// tail beyond the head: every table is reset to the new tail (resetTo) and the
 				// freezer head follows; only meaningful when all tables share the group
 				n = m.head + 1 + op.Arg%3
+				or.beyond = true
 				res.Probe("truncate-tail-beyond-head")
 			} else {
 				if m.head <= cur {
@@ -655,7 +657,19 @@ func (m *fzModel) reboot(model *simdisk.FSModel, img map[string][]byte, cut, dra
 		if draw > 0 {
 			mode = "power-loss:"
 		}
-		if cls := m.classifyImage(model.Root, img); cls != "" {
+		cls := m.classifyImage(model.Root, img)
+		if cls == "virtual-tail-beyond-recovered-head" {
+			// The recorded finding is about tail truncations that hide unsynced items. A
+			// table reset (tail truncation beyond the head) in flight at the cut is a
+			// different history and keeps its own key.
+			for _, op := range m.ops {
+				if op.beyond && op.startEv < cut && cut < op.endEv {
+					cls += ":during-table-reset"
+					break
+				}
+			}
+		}
+		if cls != "" {
 			return &simcore.Violation{Oracle: "reopen-fails", Key: "reopen-fails:" + mode + cls, Msg: fmt.Sprintf("freezer does not reopen on the crash state (%s%s): %v", mode, cls, err)}
 		}
 		return &simcore.Violation{Oracle: "reopen-fails", Key: "reopen-fails:" + mode + errClass(err), Msg: fmt.Sprintf("freezer does not reopen on the crash state: %v", err)}
